@@ -37,6 +37,17 @@ def apply(F, S, wres):
                 S.ok("T1w", o["text"], obligation=o["id"])
     # T1b: the impl's own generics: only crate getter traits may bound T (anything else could observe the bar otherwise),
     # and every getter reachable from the bar path is a documented one
+    # the price getters: crate traits with `&self -> f64` methods only and no supertrait.  Any other bound on the bar type — also a
+    # crate-local marker trait (`trait Portable {} impl<T: Send + Sync> Portable for T {}`) — is a foreign bound
+    getters = set()
+    for tr in F.d.get("traits", []):
+        if tr["path"] not in F.getter_traits:
+            continue
+        sup = [p_["s"] for p_ in (tr.get("generics") or {}).get("preds", []) if not (p_.get("k") == "trait" and (p_.get("trait") == tr["path"] or short(p_.get("trait", "")) in ("Sized", "MetaSized", "PointeeSized")))]
+        if sup or "generics" not in tr:
+            S.bad("T1", "getter-supertrait", short(tr["path"]), "the price-getter trait %s carries further requirements (%s): bar types providing the getter no longer qualify" % (tr["path"], "; ".join(sup) or "no generics facts"))
+        else:
+            getters.add(tr["path"])
     for imp in F.impls_of("Next"):
         if not imp.get("trait_args") or not imp["trait_args"][0]["s"].startswith("&"):
             continue
@@ -53,7 +64,7 @@ def apply(F, S, wres):
                 t = short(pr["trait"])
                 if t in ("Sized", "MetaSized", "PointeeSized"):
                     continue
-                if pr.get("trait_krate") == F.d["crate"] and pr["self"] in params:
+                if pr.get("trait_krate") == F.d["crate"] and pr["self"] in params and pr["trait"] in getters:
                     traits.add(t)
                 else:
                     other.append(pr["s"])
